@@ -114,6 +114,7 @@ class CtlRun(object):
         self.P = sim.params
         self.cmds = []              # every command in submission order (incl. preamble)
         self.listeners = []
+        self.listener_results = []
         self.live = {}              # name -> [lid,...]  (harness model of registered listeners)
         self.events = []            # dicts: eid, name, form, payloads, end (s2c offset)
         self.step_calls = []        # (eid, lid, payload) during the current step
@@ -154,6 +155,11 @@ class CtlRun(object):
         if self.prop == 'C02':
             self.n_events = 1 + ch.draw(P.get('max_events', 20), 'nev')
             self.n_listener_ops = ch.draw(P.get('max_listener_ops', 12) + 1, 'nlops')
+        if self.prop == 'C03' and not getattr(sim, 'big_queue', False) and ch.chance(1, 3, 'c03listeners'):
+            # event subscriptions are commands too (SETEVENTS), and a further listener for a name whose subscription is
+            # still unanswered gets a result of its own: all of them end when the connection is lost
+            self.n_listener_ops = 1 + ch.draw(5, 'nlops03')
+            sim.probe('listener-operations-before-the-loss')
         self.peer = CtlPeer(sim, handler=self.server_handler)
         if P.get('short_names'):
             self.peer.short = True
@@ -322,9 +328,9 @@ class CtlRun(object):
             acts.append((5, 'submit', self.op_submit))
         if self.cancels_left > 0 and outstanding:
             acts.append((1, 'cancel', self.op_cancel))
+        if self.n_listener_ops > 0:
+            acts.append((3, 'listener-op', self.op_listener))
         if self.prop == 'C02':
-            if self.n_listener_ops > 0:
-                acts.append((3, 'listener-op', self.op_listener))
             if self.n_events > 0:
                 acts.append((4, 'event', self.op_event))
         if self.prop == 'C03' and len(self.wd) < 3:
@@ -372,7 +378,13 @@ class CtlRun(object):
         outstanding = sum(1 for x in self.cmds if x.observed and not x.done)
         if outstanding >= 4:
             sim.probe('queue-depth>=4')
-        if kind == 'plain' and post_loss and ch.chance(1, 4, 'quit'):
+        if kind == 'plain' and not post_loss and self.prop == 'C03' and self.submitted >= self.n_cmds and ch.chance(1, 2, 'quitlast'):
+            # the application's last command is quit(): the connection may well be lost before Tor's answer to it arrives
+            c.text = text = 'QUIT'
+            c.wire = ('exact', text)
+            sim.probe('quit-as-last-command-before-the-loss')
+            d = self.proto.quit()
+        elif kind == 'plain' and post_loss and ch.chance(1, 4, 'quit'):
             # quit() is a command like any other (and may well be called more than once by tear-down code)
             c.text = text = 'QUIT'
             c.wire = ('exact', text)
@@ -544,7 +556,8 @@ class CtlRun(object):
             l = ch.pick(registered, 'which')
             self.remove_listener(l, None)
             return
-        name = ch.pick(LISTEN_NAMES, 'lname')
+        name = ch.pick(LISTEN_NAMES if self.prop != 'C03' else LISTEN_NAMES[:2], 'lname')   # (C03: few names, so that
+        # several listeners meet on one name while its subscription is still unanswered)
         beh = ['normal', 'raise', 'remove-self', 'remove-other', 'add-other'][ch.weighted([6, 2, 2, 2, 2], 'beh')]
         self.add_listener(name, beh, None)
 
@@ -577,6 +590,14 @@ class CtlRun(object):
         d = self.proto.add_event_listener(self.event_key(l), l.fn)
         if first:
             self.watch_setevents(c, d)
+        elif isinstance(d, defer.Deferred):
+            # a further listener for a name that is subscribed (or being subscribed): no command of its own, but its
+            # result is a result like any other - it completes, once
+            rec = dict(lid=l.lid, name=name, fired=0)
+            self.listener_results.append(rec)
+            d.addBoth(lambda r, rec=rec: rec.__setitem__('fired', rec['fired'] + 1))
+        else:
+            sim.fail(self.prop + '.no-deferred', 'listener operation returned %r' % (d,))
 
     def watch_setevents(self, c, d):
         if not isinstance(d, defer.Deferred):
@@ -843,6 +864,11 @@ class CtlRun(object):
         sim, prop = self.sim, self.prop
         if sim.already_called:
             sim.fail(prop + '.already-called-error', 'a Deferred was fired twice somewhere (%d AlreadyCalledError)' % sim.already_called)
+        for rec in self.listener_results:
+            if rec['fired'] != 1:
+                sim.fail(prop + '.listener-registration-' + ('pending' if rec['fired'] == 0 else 'fired-twice'),
+                         'add_event_listener(%s) for listener %d (not the first for that name) fired %d times by quiescence%s' % (
+                             rec['name'], rec['lid'], rec['fired'], ' after the connection was lost' if self.cut_done else ''))
         if self.cut_done:
             self.check_final_c03()
             return
